@@ -38,6 +38,7 @@ SPECTRAL_DOM = ["Zhang", "AnisotStress", "AnisotStress_PM", "AnisotStress_MP", "
 E_ISO, V_ISO = 7.3, 0.27
 A0 = 0.1  # amplitude of the letters used in pairs
 AMPS = ["1.0", "0.7", "0.3", "0.1", "0.037", "0.011", "0.00013", "2.5"]
+GEN_AMPS = ["1e-9", "1e-12", "1e+5"]
 
 
 # ------------------------------------------------------------------------------------------------
@@ -624,6 +625,12 @@ def _run_amp(case):
     names, rows = [], []
     for s in degenerate_letters(dim):
         for a in AMPS:
+            names.append((s, a))
+            rows.append(letter_strain(cfg, C, s, float(a)))
+    # generic states (distinct principal values) in other unit systems / at the first increment of a ramp: the splits are
+    # positively homogeneous, so the class of a state cannot depend on its magnitude
+    for s in [x for x in letters(dim) if x.startswith("gen")]:
+        for a in GEN_AMPS:
             names.append((s, a))
             rows.append(letter_strain(cfg, C, s, float(a)))
     eps = np.array(rows).reshape(len(rows), 1, -1)
